@@ -340,6 +340,17 @@ def check_diagram(spec, plan, evaluate, reference, labels):
                 continue
             same(to_complex(pl, {}), to_complex(ps, {}),
                  "lambdify-vs-subs", "{!r} vs {!r}".format(bl, bs))
+        # the same object lambdified again, symbols in another order and
+        # other values: a function of the symbols as listed this time
+        if len(xs) >= 2:
+            ys = xs[1:] + xs[:1]
+            env2 = dict(plan["env"])
+            for k, y in enumerate(ys):
+                env2[y] = plan["env"][y] + 0.5 + 0.25 * k
+            lam2 = d.lambdify(*[sym(y) for y in ys])(*[env2[y] for y in ys])
+            same(to_complex(evaluate(lam2), {}),
+                 reference(subst_spec(spec, env2)), "lambdify-again",
+                 "{} on {} after {}".format(common.show(d), ys, xs))
     shared = any(sum(1 for b, _ in spec["layers"]
                      if any(s in expr_symbols(e) for e in box_exprs(b))) >= 2
                  for s in symbols)
